@@ -9,7 +9,7 @@ import shutil
 import vlib
 from vlib import sh, BUILD, COQ
 
-HARNESS_TOOLS = ["purefh", "ledgerh", "gossiph"]
+HARNESS_TOOLS = ["purefh", "ledgerh", "gossiph", "rpch"]
 
 
 def _tool(name, **kw):
@@ -25,7 +25,7 @@ def _driver():
     with vlib.BuildLock():
         src_newer = (not os.path.exists(d)) or any(
             os.path.getmtime(os.path.join(COQ, x)) > os.path.getmtime(d)
-            for x in ("Model/Spice.v", "Gen/RepoConstants.v", "extract/Extract.v", "extract/driver.ml"))
+            for x in ("Model/Spice.v", "Model/Handlers.v", "Gen/RepoConstants.v", "extract/Extract.v", "extract/driver.ml"))
         if src_newer:
             ok, log = vlib.build_extraction()
             if not ok:
@@ -327,6 +327,52 @@ def make_gossip_check(prop):
     return {"run": run, "replay": replay}
 
 
+# ------------------------------------------------------------------ C15: handlers (exhaustive shape classes, extracted model)
+def run_C15(ctx, tier):
+    tool = _tool("rpch")
+    with vlib.BuildLock():
+        rc, o, e = sh(["make", "-j16", "Model/Handlers.vo"], cwd=COQ, timeout=1500)
+        okx, xlog = (False, o + e) if rc != 0 else vlib.build_extraction()
+    mism = []
+    summ, cases = os.path.join(ctx.work, "rpc_%s.json" % tier), os.path.join(ctx.work, "rpc_cases_%s.txt" % tier)
+    rc, out, err = sh([tool, "-tier", tier, "-seed", str(ctx.seed), "-summary", summ, "-out", cases], timeout=3000)
+    if rc != 0:
+        raise RuntimeError("rpch failed rc=%s %s %s" % (rc, out[-1500:], err[-1500:]))
+    s = json.load(open(summ))
+    if not okx:
+        mism.append("model/extraction does not build: " + xlog[-800:])
+    else:
+        rc, out, err = sh("%s < %s" % (os.path.join(COQ, "extract", "driver"), cases), timeout=1800)
+        tl = [l for l in out.splitlines() if l.startswith("TOTAL")]
+        if rc != 0 or not tl:
+            mism.append("driver failed: " + (out + err)[-800:])
+        elif int(tl[-1].split()[3]) != 0:
+            mism += [l for l in out.splitlines() if l.startswith("MISMATCH")][:10] or ["%s" % tl[-1]]
+    os.remove(cases)
+    viol = [{"key": v["key"], "what": v["what"][:500]} for v in (s.get("violations") or [])]
+    return {"evaluations": s["evaluations"], "distinct_nontrivial": s["distinct_nontrivial"],
+            "rule": "EXHAUSTIVE product, per handler, of length classes per bytes/string field ({0,1,31,32,33,100} for hashes and digests, {0,31,32} for secondary hashes, "
+                    "empty/non-empty for text, 0/5/1100 for data), present/absent per sub-message and success/failure per dependency (programmable stubs), on the REAL handler code "
+                    "under recover(); non-trivial = cases that end in an error or a panic (each case is distinct by construction)",
+            "samples": s.get("samples", []), "mismatches": mism, "violations": viol,
+            "extra": {"branches_reached": s.get("kinds", {}), "exhaustive": True,
+                      "comparison": "outcome class (response/error/panic) and the sorted list of mutating dependency calls vs Handlers.run, on EVERY case, by the extracted OCaml model"},
+            "assumptions": ["gRPC delivers non-nil top-level messages and non-nil elements of repeated message fields (protobuf decoding)",
+                            "dependencies are abstracted to ok/fail outcomes; their own panics are out of scope here (ledger: C09/C01 traces; verifier: C04)"]}
+
+
+def replay_C15(ctx, path):
+    r = json.load(open(path))
+    print(json.dumps(r, indent=1)[:3000])
+    res = run_C15(ctx, "quick")
+    want = (r.get("violation") or {}).get("key")
+    if (want and want in {v["key"] for v in res["violations"]}) or (not want and res["mismatches"]):
+        print("VIOLATION property=C15 replay=%s" % path)
+        return 1
+    print("replay: not reproduced on the current tree")
+    return 0
+
+
 PROPS = {
     "C05": {"run": run_C05, "replay": replay_C05},
     "C01": make_ledger_check("C01", ["c01.", "res.", "op."]),
@@ -340,6 +386,7 @@ PROPS = {
     "C14": make_ledger_check("C14", ["load.", "res.load", "op.load"]),
     "C11": make_gossip_check("C11"),
     "C12": make_gossip_check("C12"),
+    "C15": {"run": run_C15, "replay": replay_C15},
     "C20": make_pure_check("C20", "wallet",
         "real SaveWallet/ReadWallet (+PEM) over seeded wallets x {16,32}-byte keys: the round trip, EVERY truncation length 0..len-1, EVERY byte position x k xor-values, "
         "one extra byte, wrong keys of sizes {same, other valid, 0,1,15,17,24,31,33,64} and one flipped key bit; non-trivial = every non-round-trip case (each is a distinct file/key)",
